@@ -556,6 +556,37 @@ func (c *c11Case) timeTravel(o c11Out) *Violation {
 		if i+1 < len(c.ps) {
 			end = c.ps[i+1].commit - c.thr
 		}
+		// timestamp regime: which version a slot carries is the grouping heuristic's choice, but whatever it
+		// chooses is a visible version stamped no later than the parent's time stamp plus the threshold, and not
+		// after the parent's time stamp unless it belongs to the parent's changeset (theorem child_choice_ts)
+		if tsRegime {
+			for j, rf := range p.refs {
+				if rf.ver != 0 && c.fmod > 0 && rf.fid%c.fmod == 0 {
+					continue
+				}
+				s, has := sorted[rf.fid]
+				if !has {
+					continue
+				}
+				var ver int
+				if c.kind == "way" {
+					ver = o.ways[i].Nodes[j].Version
+				} else {
+					ver = o.rels[i].Members[j].Version
+				}
+				if ver == 0 {
+					continue // not annotated (no visible child; reported or ignored elsewhere)
+				}
+				for _, ch := range s {
+					if ch.ver != int64(ver) {
+						continue
+					}
+					if !ch.vis || ch.commit > p.commit+c.thr || (ch.commit > p.commit && ch.cs != p.cs) {
+						return &Violation{Signature: "child-choice-outside-window", Text: fmt.Sprintf("parent version %d (ts %d, changeset %d, threshold %d), child index %d (fid %d) annotated with version %d (ts %d, changeset %d, visible %v): not a visible version stamped at or before the parent, or within the threshold after it in the parent's changeset", i+1, p.commit, p.cs, c.thr, j, rf.fid, ver, ch.commit, ch.cs, ch.vis)}
+					}
+				}
+			}
+		}
 		// the annotation itself: every slot carries the version current at the parent's commit, and every
 		// update is a version committed after this parent version and before the next one
 		if !tsRegime {
